@@ -68,6 +68,9 @@ def run(ctx, chk):
                 continue
             if not p['env'].possible(bm.ADDR, 0xff46):
                 continue
+            e46 = p['env'].copy()
+            if not e46.assume_eq(bm.ADDR, 0xff46) or not absint.feasible(e46):
+                continue        # excluded bit-precisely (the path tests single bytes of the address)
             n46 += 1
             r46 = p['result']
             try:
